@@ -296,7 +296,15 @@ pub fn cli_main(registry: &dyn Fn(&str) -> Option<CheckSpec>, all: &[&str]) -> !
                     .unwrap_or(100),
                 verify_replay: !args.iter().any(|a| a == "--no-verify-replay"),
             };
-            let code = run_check(&spec, &ctx);
+            // A panic on the main thread (harness bug) must not pass silently: the panic hook is silent.
+            let code = match std::panic::catch_unwind(std::panic::AssertUnwindSafe(|| run_check(&spec, &ctx))) {
+                Ok(c) => c,
+                Err(_) => {
+                    let (loc, msg) = crate::panic_loc::take().unwrap_or_default();
+                    crate::outln!("HARNESS-ERROR property={} panic at {}: {}", spec.property, loc, msg);
+                    2
+                }
+            };
             std::process::exit(code);
         }
         "replay" => {
